@@ -20,6 +20,81 @@ example : Desc (5 :: [5, 3, 1]) ∧ (∀ x ∈ [5, 3, 1], (0:Int) < x) ∧
     (({ num := 2, ivl := 2, hist := [5, 3, 1] } : Counter).add 5).2 = true := by
   refine ⟨by simp [Desc], by decide, by decide⟩
 
+/-- **ring_refines_history.** The concrete ring buffer of `num + 1` slots (golibs `RingBuffer`, as
+used by `RequestCounter`) gives, for every stamp sequence, the verdicts of the history model that
+`counter_exact` is stated about. -/
+theorem ring_refines_history (num : Nat) (ivl : Int) (tss : List Int) :
+    ringRun ivl (Ring.new (num + 1)) tss = ctrRun (Counter.new num ivl) tss := by
+  have key : ∀ (tss : List Int) (r : Ring) (c : Counter), RingInv (num + 1) r c.hist → c.num = num →
+      c.ivl = ivl → ringRun ivl r tss = ctrRun c tss := by
+    intro tss
+    induction tss with
+    | nil => intro _ _ _ _ _; rfl
+    | cons t ts ih =>
+      intro r c hi hn hv
+      have h := ringAdd_eq_above num ivl r c.hist t hi
+      simp only [ringRun, ctrRun]
+      have h2 : (c.add t).2 = above num ivl c.hist t := by simp [Counter.add, hn, hv]
+      rw [h.1, h2]
+      congr 1
+      exact ih _ _ (by simpa [Counter.add] using h.2) (by simpa [Counter.add] using hn)
+        (by simpa [Counter.add] using hv)
+  exact key tss _ _ (ringInv_new num) rfl rfl
+
+example : ringRun 10 (Ring.new 3) [1, 2, 3, 20, 21, 22] = [false, false, true, false, false, true] := by
+  decide
+
+/-- **backoff_is_window_log_partial.** With cache entries that never expire (non-positive `Period`
+and `Duration`), for every history of events with positive non-decreasing times the real limiter's
+verdicts are exactly those of the specification `specRun`: a query is dropped iff ANY-refusal applies,
+or its bucket has already exceeded its limit `count` times (backoff), or at least `limit` earlier
+counted events of its bucket lie in the closed window; allowlisted clients pass untouched.
+PARTIAL: histories in which a `reqCounters`/`hitCounters` entry expires are not covered
+(known finding `reqcounter-expires-period-after-creation`). -/
+theorem backoff_is_window_log_partial (c : Cfg) (hp : c.period ≤ 0) (hdur : c.duration ≤ 0)
+    (h4 : 0 ≤ c.v4ivl) (h6 : 0 ≤ c.v6ivl) (evs : List Ev) (hch : Chain 0 evs) :
+    run c St.empty evs = specRun c Spec.empty evs := by
+  have key : ∀ (evs : List Ev) (s : St) (sp : Spec) (T : Int), (∀ k, SimK c s sp k) → TimeInv sp T →
+      Chain T evs → run c s evs = specRun c sp evs := by
+    intro evs
+    induction evs with
+    | nil => intro _ _ _ _ _ _; rfl
+    | cons e r ih =>
+      intro s sp T hs ht hc
+      obtain ⟨hpos, hT, hrest⟩ := hc
+      have := sim_step c s sp e T hp hdur h4 h6 hs ht hpos hT
+      simp only [run, specRun]
+      rw [this.1, ih _ _ _ this.2.1 this.2.2 hrest]
+  apply key evs St.empty Spec.empty 0 _ _ hch
+  · intro k; simp [SimK, St.empty, Spec.empty]
+  · intro k; simp [Spec.empty, Desc]
+
+/-- Non-vacuity: a concrete history (limit 1 per 10 ns in a /24, backoff after 2 hits) meets the
+hypotheses and exercises pass, window drop and backoff drop. -/
+def exCfg2 : Cfg :=
+  { count := 2, period := 0, duration := 0, est := 1, v4count := 1, v4ivl := 10, v4len := 24,
+    v6count := 1, v6ivl := 10, v6len := 48, refuseAny := false, allow := [] }
+def exEvs : List Ev :=
+  [⟨1, ⟨true, 167772161⟩, 1⟩, ⟨2, ⟨true, 167772162⟩, 1⟩, ⟨3, ⟨true, 167772163⟩, 1⟩, ⟨100, ⟨true, 167772161⟩, 1⟩]
+example : Chain 0 exEvs ∧ specRun exCfg2 Spec.empty exEvs = [.pass, .drop, .drop, .drop] := by
+  refine ⟨by simp [Chain, exEvs], by decide⟩
+
+def exCfg3 : Cfg :=
+  { count := 1000, period := 300, duration := 3600000, est := 100000, v4count := 2, v4ivl := 10000,
+    v4len := 24, v6count := 2, v6ivl := 10000, v6len := 48, refuseAny := false, allow := [] }
+def exEvs3 : List Ev :=
+  [⟨1, ⟨true, 3221225985⟩, 1⟩, ⟨2, ⟨true, 3221225985⟩, 1⟩, ⟨3, ⟨true, 3221225985⟩, 1⟩,
+   ⟨4, ⟨true, 3221225985⟩, 1⟩, ⟨404, ⟨true, 3221225985⟩, 1⟩]
+
+/-- **backoff_reset_counterexample.** With a positive `Period` the exact-window claim is false for
+the code as written: limit 2 per 10 s, period 300 ms — the fifth query, 0.4 s after four others,
+passes although four events lie in its window (times in ms).  Replayed on the real limiter by the
+harness (known finding `reqcounter-expires-period-after-creation`). -/
+theorem backoff_reset_counterexample :
+    run exCfg3 St.empty exEvs3 = [.pass, .pass, .drop, .drop, .pass] ∧
+      specRun exCfg3 Spec.empty exEvs3 = [.pass, .pass, .drop, .drop, .drop] := by
+  decide
+
 /-- **refuse_any_all.** With ANY refusal configured every ANY query is dropped, allowlisted or not. -/
 theorem refuse_any_all (c : Cfg) (s : St) (now : Int) (a : Addr) (h : c.refuseAny = true) :
     (isRateLimited c s now a qtypeANY).2 = .drop := by
@@ -43,57 +118,6 @@ def exCfg : Cfg :=
 example : allowed exCfg { is4 := true, val := 167838211 } = true ∧
     ¬ (exCfg.refuseAny = true ∧ 1 = qtypeANY) := by decide
 
-/-- Two limiter states agree on bucket `k`. -/
-def Agree (k : Key) (s₁ s₂ : St) : Prop := s₁.req k = s₂.req k ∧ s₁.hit k = s₂.hit k
-
-/-- Frame: an event leaves every other bucket untouched. -/
-theorem frame (c : Cfg) (s : St) (now : Int) (a : Addr) (q : Nat) (k : Key)
-    (hk : subnetKey a c.v4len c.v6len ≠ k) :
-    Agree k (isRateLimited c s now a q).1 s := by
-  have hk' : ¬ (k = subnetKey a c.v4len c.v6len) := fun h => hk h.symm
-  unfold isRateLimited
-  split
-  · exact ⟨rfl, rfl⟩
-  split
-  · exact ⟨rfl, rfl⟩
-  split
-  · exact ⟨rfl, rfl⟩
-  simp only [hasHitRateLimit, incBackoff, Agree]
-  split
-  · split <;> simp [hk']
-  · simp [hk']
-
-/-- Determinacy: the verdict for an address and the new contents of its bucket depend only on the
-old contents of that bucket. -/
-theorem local_step (c : Cfg) (s₁ s₂ : St) (now : Int) (a : Addr) (q : Nat)
-    (h : Agree (subnetKey a c.v4len c.v6len) s₁ s₂) :
-    (isRateLimited c s₁ now a q).2 = (isRateLimited c s₂ now a q).2 ∧
-    Agree (subnetKey a c.v4len c.v6len) (isRateLimited c s₁ now a q).1 (isRateLimited c s₂ now a q).1 := by
-  obtain ⟨hr, hh⟩ := h
-  have hb : isBackoff c s₁ (subnetKey a c.v4len c.v6len) now =
-      isBackoff c s₂ (subnetKey a c.v4len c.v6len) now := by
-    simp [isBackoff, Tbl.get, hh]
-  have hc : ∀ n i, curCounter s₁ (subnetKey a c.v4len c.v6len) n i now =
-      curCounter s₂ (subnetKey a c.v4len c.v6len) n i now := by
-    intro n i; simp [curCounter, hr]
-  have he : curExpiry c s₁ (subnetKey a c.v4len c.v6len) now =
-      curExpiry c s₂ (subnetKey a c.v4len c.v6len) now := by
-    simp [curExpiry, hr]
-  unfold isRateLimited
-  split
-  · exact ⟨rfl, hr, hh⟩
-  split
-  · exact ⟨rfl, hr, hh⟩
-  rw [hb]
-  split
-  · exact ⟨rfl, hr, hh⟩
-  simp only [hasHitRateLimit, hc, he]
-  refine ⟨rfl, ?_⟩
-  split
-  · simp only [incBackoff, Tbl.get, hh, Agree]
-    split <;> simp
-  · simp [Agree, hh]
-
 /-- **subnet_isolation.** Non-interference between buckets: the verdicts a subnet's events get inside
 an arbitrary history equal the verdicts they get when every event of every other subnet is removed.
 A flooding subnet cannot change what any other subnet experiences. -/
@@ -116,8 +140,9 @@ theorem subnet_isolation (c : Cfg) (k : Key) (evs : List Ev) :
 end Agd.Ratelimit
 
 #print axioms Agd.Ratelimit.counter_exact
+#print axioms Agd.Ratelimit.ring_refines_history
+#print axioms Agd.Ratelimit.backoff_is_window_log_partial
+#print axioms Agd.Ratelimit.backoff_reset_counterexample
 #print axioms Agd.Ratelimit.refuse_any_all
 #print axioms Agd.Ratelimit.allowlisted_never_dropped
 #print axioms Agd.Ratelimit.subnet_isolation
-#print axioms Agd.Ratelimit.frame
-#print axioms Agd.Ratelimit.local_step
